@@ -277,6 +277,9 @@ func symbolic(symbols []pr.NamedString, value int) (string, bool) {
 	if len(symbols) == 0 {
 		return "", false
 	}
+	if value < 1 { // not representable (an explicit range may let such a value come here)
+		return "", false
+	}
 	L := len(symbols)
 	index := (value - 1) % L
 	repeat := (value-1)/L + 1
